@@ -177,6 +177,26 @@ def cases():
             if site.startswith("import@"):
                 files["b.xsd"] = schema("", tns="http://zv.test/b")
             out.append((f"garbage-attribute:{site}:value-{gi}", files, name))
+    # ---- documents with a DOCTYPE: entities that expand to deep nesting (no single one deeper than any limit on the literal text),
+    # to a huge text (billion laughs), to themselves, external ones
+    def dtd_doc(entities, body):
+        decl = "".join(f"<!ENTITY {n} '{v}'>" for n, v in entities)
+        return (f'<?xml version="1.0"?><!DOCTYPE xs:schema [{decl}]><xs:schema {XS} xmlns:t="{T}" targetNamespace="{T}">'
+                f'<xs:complexType name="C">{body}</xs:complexType></xs:schema>')
+    for per, chain in ((1000, 10), (500, 40), (100, 200)):
+        ents = [("e0", "<xs:sequence>" * per + '<xs:element name="a" type="xs:int"/>' + "</xs:sequence>" * per)]
+        for k in range(1, chain):
+            ents.append((f"e{k}", "<xs:sequence>" * per + f"&e{k - 1};" + "</xs:sequence>" * per))
+        out.append((f"dtd-entities-nest-deeper-than-the-text:per-entity={per}:chain={chain}", {"a.xsd": dtd_doc(ents, f"&e{chain - 1};")}, "a.xsd"))
+    laughs = [("l0", "lol")] + [(f"l{k}", f"&l{k - 1};" * 10) for k in range(1, 10)]
+    out.append(("dtd-billion-laughs-in-documentation", {"a.xsd": dtd_doc(laughs, "<xs:annotation><xs:documentation>&l9;</xs:documentation></xs:annotation><xs:sequence/>")}, "a.xsd"))
+    out.append(("dtd-billion-laughs-in-attribute", {"a.xsd": dtd_doc(laughs, '<xs:sequence><xs:element name="&l9;" type="xs:int"/></xs:sequence>')}, "a.xsd"))
+    out.append(("dtd-entity-refers-to-itself", {"a.xsd": dtd_doc([("a", "&b;"), ("b", "&a;")], "<xs:sequence>&a;</xs:sequence>")}, "a.xsd"))
+    out.append(("dtd-external-entity", {"a.xsd": f'<?xml version="1.0"?><!DOCTYPE xs:schema [<!ENTITY x SYSTEM "file:///etc/passwd">]><xs:schema {XS} targetNamespace="{T}">'
+                                                 '<xs:annotation><xs:documentation>&x;</xs:documentation></xs:annotation></xs:schema>'}, "a.xsd"))
+    out.append(("dtd-plain-doctype", {"a.xsd": f'<?xml version="1.0"?><!DOCTYPE xs:schema SYSTEM "XMLSchema.dtd"><xs:schema {XS} targetNamespace="{T}"/>'}, "a.xsd"))
+    out.append(("dtd-in-imported-file", {"a.xsd": schema('<xs:import namespace="http://zv.test/b" schemaLocation="b.xsd"/>'),
+                                         "b.xsd": dtd_doc(ents, f"&e{chain - 1};").replace(T, "http://zv.test/b")}, "a.xsd"))
     # ---- a pretty-printed schema cut right after each of its line breaks (inside the prolog, a licence comment, a start tag
     # with one attribute per line, a CDATA section, ...): the text ends where a parser's "row" points past the last line
     pretty = ('<?xml version="1.0"\n      encoding="UTF-8"?>\n<!--\n  Licence text\n  over several lines\n-->\n<xs:schema\n    xmlns:xs="http://www.w3.org/2001/XMLSchema"\n'
